@@ -31,19 +31,19 @@ TreeNames ==
 TTLs == {<<0, 0, 0, 0>>, <<0, 0, 0, 1>>, <<127, 255, 255, 255>>, <<128, 0, 0, 0>>, <<255, 255, 255, 255>>, <<1, 2, 3, 4>>}
 
 \* replace every embedded name of a generated value tuple by a random tree name
-Resub(t, f) ==
+Resub(t, f, x) ==
   LET sc == Schema(t) IN
   [i \in 1 .. Len(sc) |->
      IF sc[i].t = "N" \/ (sc[i].t = "GW" /\ f[i - 2] = <<3>>) THEN RandomElement(TreeNames) ELSE f[i]]
 
-RandRecord ==
+RandRecord(x) ==
   LET t == RandomElement((TypedTypes \ {41}) \cup {10, 99, 65280})
       f0 == RandomElement(Tuples(t) \cup {<<>>})          \* <<>> : empty RDATA
-      f == IF f0 = <<>> THEN <<>> ELSE IF RandomElement({0, 1, 2}) = 0 THEN f0 ELSE Resub(t, f0) IN
+      f == IF f0 = <<>> THEN <<>> ELSE IF RandomElement({0, 1, 2}) = 0 THEN f0 ELSE Resub(t, f0, x) IN
   [name |-> RandomElement(TreeNames), type |-> t, class |-> RandomElement(SupportedClasses),
    cf |-> RandomElement(BOOLEAN), ttl |-> RandomElement(TTLs), rd |-> f]
 
-RandQuestion ==
+RandQuestion(x) ==
   [name |-> RandomElement(TreeNames),
    qtype |-> RandomElement(SupportedTypes \cup QTypeSpecials),
    qclass |-> RandomElement(SupportedClasses \cup {255}),
@@ -60,16 +60,16 @@ Init == /\ \E id \in {0, 4660, 65535} : pkt \in {Blank(id, 0), Blank(id, 32768)}
 
 Entries == Len(pkt.qd) + Len(pkt.an) + Len(pkt.ns) + Len(pkt.ar)
 
-RandFlags == RandomElement(SUBSET FlagNames)
-SetFlags == pkt' = [pkt EXCEPT !.fs = MaskOf(HdrFlagSet(@) \cup RandFlags)]
-RemoveFlags == pkt' = [pkt EXCEPT !.fs = MaskOf(HdrFlagSet(@) \ RandFlags)]
+RandFlags(x) == RandomElement(SUBSET FlagNames)
+SetFlags == pkt' = [pkt EXCEPT !.fs = MaskOf(HdrFlagSet(@) \cup RandFlags(pkt))]
+RemoveFlags == pkt' = [pkt EXCEPT !.fs = MaskOf(HdrFlagSet(@) \ RandFlags(pkt))]
 SetOpcode == pkt' = [pkt EXCEPT !.opcode = RandomElement(NamedOpcodes)]
 SetRcode == pkt' = [pkt EXCEPT !.rcode = RandomElement(IF pkt.opt = <<>> THEN NamedRcodes4 ELSE NamedRcodes)]
 SetOpt == pkt' = [pkt EXCEPT !.opt = <<RandomElement(OptVals)>>]
-PushQ == Entries < MaxEntries /\ pkt' = [pkt EXCEPT !.qd = Append(@, RandQuestion)]
-PushAn == Entries < MaxEntries /\ pkt' = [pkt EXCEPT !.an = Append(@, RandRecord)]
-PushNs == Entries < MaxEntries /\ pkt' = [pkt EXCEPT !.ns = Append(@, RandRecord)]
-PushAr == Entries < MaxEntries /\ pkt' = [pkt EXCEPT !.ar = Append(@, RandRecord)]
+PushQ == Entries < MaxEntries /\ pkt' = [pkt EXCEPT !.qd = Append(@, RandQuestion(pkt))]
+PushAn == Entries < MaxEntries /\ pkt' = [pkt EXCEPT !.an = Append(@, RandRecord(pkt))]
+PushNs == Entries < MaxEntries /\ pkt' = [pkt EXCEPT !.ns = Append(@, RandRecord(pkt))]
+PushAr == Entries < MaxEntries /\ pkt' = [pkt EXCEPT !.ar = Append(@, RandRecord(pkt))]
 
 \* one API call per step, chosen by a die (the generator is run with -simulate)
 Build ==
